@@ -1,6 +1,7 @@
 //! Correspondence harness: runs the implementation on generated cases and prints one case
 //! line per case ("<channel> key=value ...") for the model driver.
 mod art;
+mod ess;
 mod flags;
 mod probe;
 mod util;
@@ -36,6 +37,7 @@ fn main() {
     match args[1].as_str() {
         "art" => art::run(seed, count, maxn, &mode, &mut out),
         "flags" => flags::run(seed, count, &mut out),
+        "ess" => ess::run(seed, count, maxn, &mode, &mut out),
         "probe" => probe::run(&mode),
         other => {
             eprintln!("unknown channel {other}");
